@@ -66,7 +66,7 @@ def from_path(m, sp, ef):
 
 
 def segment_size_of(fb):
-    hdr, ceb = layout(fb, '::ShmHeader'), layout(fb, 'clock_bound_shm::ClockErrorBound')
+    hdr, ceb = layout(fb, '::ShmHeader'), layout(fb, '::ClockErrorBound')
     if hdr is None or ceb is None:
         return None
     n = hdr['size'] + ceb['size']
